@@ -515,6 +515,9 @@ def canaries(run, tier):
 
 
 def build(run):
+    from props import conformance
+
+    conformance.run_conformance(run, ['pack'])
     run.assume("A-ENGINE qvc VC generator + z3/cvc5", "A-PY python semantics subset (DESIGN 2.3)",
                "A-TORCH-IDX slicing/cat dim 0/in-place |= through a slice view", "A-TORCH-EW uint8 & | << >> // * wrap-around",
                "A-TORCH-DISPATCH torch.ops.<lib>.<op> picks the kernel registered for the device key, else 'default'",
